@@ -598,3 +598,46 @@ mod waitpay_history {
             "wait_payment reported no payment although a part is complete");
     }
 }
+
+/// History replay for known finding F-C16-a (C16): `pay` ends PENDING and the re-check of the node
+/// (listsendpays) fails. The wrapper must not report the payment as failed.
+#[cfg(all(test, feature = "verif"))]
+mod pay_history {
+    use std::sync::Arc;
+
+    use anyhow::anyhow;
+    use secp256k1::hashes::{sha256, Hash};
+
+    use crate::{
+        payment_provider::{PayPaymentProvider, PaymentProvider, PaymentRequest},
+        rpc::{MockClnRpc, RpcError},
+    };
+
+    #[tokio::test]
+    async fn verif_history_c16_recheck_error_reported_as_payment_failure() {
+        let mut rpc = MockClnRpc::new();
+        rpc.expect_pay().returning(|_| {
+            Ok(serde_json::from_value(serde_json::json!({
+                "payment_preimage": hex::encode([0u8; 32]),
+                "payment_hash": sha256::Hash::hash(&[1u8; 32]).to_string(),
+                "created_at": 1.0, "parts": 1, "amount_msat": 1000, "amount_sent_msat": 1000,
+                "status": "pending",
+            }))
+            .unwrap())
+        });
+        rpc.expect_listsendpays()
+            .returning(|_| Err(RpcError::General(anyhow!("listsendpays: connection reset"))));
+        let provider = PayPaymentProvider::new(Arc::new(rpc), std::time::Duration::from_secs(60), true);
+        let r = provider
+            .pay(PaymentRequest {
+                bolt11: String::from("lnbc1"),
+                payment_hash: sha256::Hash::hash(&[1u8; 32]),
+                amount_msat: None,
+                max_fee_msat: 10,
+                max_cltv_delta: 100,
+            })
+            .await;
+        println!("HISTORY c16_recheck_error result={:?}", r.as_ref().map_err(|e| e.to_string()));
+        assert!(r.is_ok(), "pay reported failure although its parts may be pending (status was PENDING and the re-check failed)");
+    }
+}
